@@ -250,11 +250,12 @@ func (g *grun) openAll() {
 }
 
 type gverdict struct {
-	mismatch string // non-empty: the real code did something the behaviour does not prescribe
-	diverged bool   // the Go runtime took the other arm of a ready select at a step marked det = FALSE
-	hang     *hangInfo
-	infra    error
-	steps    int
+	mismatch  string // non-empty: the real code did something the behaviour does not prescribe
+	diverged  bool   // the Go runtime took the other arm of a ready select at a step marked det = FALSE
+	hang      *hangInfo
+	infra     error
+	steps     int
+	abandoned bool // after a mismatch/divergence the free-running remainder did not finish
 }
 
 // replayBehaviour drives one real pipeline through the schedule of one TLC behaviour.
@@ -297,16 +298,34 @@ func replayBehaviour(ev *eval.Evaler, id int, gc *gcase, modelCap, realCapacity 
 			for range g.done {
 			}
 		}()
-		grace := wd.giveUp
 		if v.hang != nil {
-			grace = 2 * time.Second // the evaluation is parked for good: its goroutines are abandoned
+			select { // the evaluation is parked for good: its goroutines are abandoned
+			case <-evalDone:
+				collect()
+			case <-time.After(2 * time.Second):
+			}
+			return v
 		}
-		select {
-		case <-evalDone:
-			collect()
-		case <-time.After(grace):
+		// let it finish; if the remainder parks for good as well, abandon it (no verdict from a free run)
+		t0 := time.Now()
+		parkedSince := 0
+		for {
+			select {
+			case <-evalDone:
+				collect()
+				return v
+			case <-time.After(time.Second):
+			}
+			if _, parked, _ := evalGoroutines(); parked {
+				parkedSince++
+			} else {
+				parkedSince = 0
+			}
+			if parkedSince >= 5 || time.Since(t0) > wd.giveUp {
+				v.abandoned = true
+				return v
+			}
 		}
-		return v
 	}
 	// every stage must have recorded its ports before the first gate opens
 	for i := 0; i < n; i++ {
